@@ -136,86 +136,56 @@ class SATEncoder:
         return terms, const
 
     def _encode_ne_expr(self, left: Any, right: Any, is_ne: bool) -> None:
-        """Encode (left_expr != right_expr) or (left_expr == right_expr).
+        """Encode (left_expr != right_expr) or (left_expr == right_expr) for linear expressions.
 
-        Handles linear expressions like (x + c1) != (y + c2).
+        Normalises to sum(pos) + offset ?= sum(neg), where both sums run over variables
+        repeated by their (positive) coefficients, then relates the two sum variables.
         """
-        from solvor.cp import IntVar
+        terms, const = self.model._linearize(("sub", left, right))
+        by_name = self.model._vars
+        pos = [by_name[n] for n, c in terms.items() if c > 0 for _ in range(c)]
+        neg = [by_name[n] for n, c in terms.items() if c < 0 for _ in range(-c)]
 
-        # Handle subtraction: (x - y) ?= c => x ?= y + c
-        if isinstance(left, tuple) and left[0] == "sub":
-            x, y = left[1], left[2]
-            if isinstance(x, IntVar) and isinstance(y, IntVar):
-                right_const = right if isinstance(right, int) else 0
+        # sum(pos) + const ?= sum(neg)
+        if not pos and not neg:
+            if (const != 0) != is_ne:
+                self._clauses.append([])
+            return
+        if not neg or not pos:
+            side, target = (pos, -const) if pos else (neg, const)
+            var = self._sum_var(side)
+            if is_ne:
+                self._encode_ne_const(var, target)
+            else:
+                self._encode_eq_const(var, target)
+            return
+
+        var1, var2 = self._sum_var(pos), self._sum_var(neg)
+        for v1 in var1.bool_vars:
+            v2 = v1 + const
+            if v2 in var2.bool_vars:
                 if is_ne:
-                    for v1 in x.bool_vars:
-                        v2 = v1 - right_const
-                        if v2 in y.bool_vars:
-                            self._clauses.append([-x.bool_vars[v1], -y.bool_vars[v2]])
+                    self._clauses.append([-var1.bool_vars[v1], -var2.bool_vars[v2]])
                 else:
-                    for v1 in x.bool_vars:
-                        v2 = v1 - right_const
-                        if v2 in y.bool_vars:
-                            self._clauses.append([-x.bool_vars[v1], y.bool_vars[v2]])
-                            self._clauses.append([x.bool_vars[v1], -y.bool_vars[v2]])
-                        else:
-                            self._clauses.append([-x.bool_vars[v1]])
-                return
+                    self._clauses.append([-var1.bool_vars[v1], var2.bool_vars[v2]])
+                    self._clauses.append([var1.bool_vars[v1], -var2.bool_vars[v2]])
+            elif not is_ne:
+                self._clauses.append([-var1.bool_vars[v1]])
+        if not is_ne:
+            for v2 in var2.bool_vars:
+                if v2 - const not in var1.bool_vars:
+                    self._clauses.append([-var2.bool_vars[v2]])
 
-        left_terms, left_const = self._flatten_sum(left)
-        right_terms, right_const = self._flatten_sum(right)
-
-        # Handle case: single var + const on left, constant on right
-        if len(left_terms) == 1 and len(right_terms) == 0:
-            var = left_terms[0]
-            target = right_const - left_const
-            if is_ne:
-                self._encode_ne_const(var, target)
-            else:
-                self._encode_eq_const(var, target)
-            return
-
-        # Handle case: constant on left, single var + const on right
-        if len(left_terms) == 0 and len(right_terms) == 1:
-            var = right_terms[0]
-            target = left_const - right_const
-            if is_ne:
-                self._encode_ne_const(var, target)
-            else:
-                self._encode_eq_const(var, target)
-            return
-
-        # Handle case: two vars on left, constant on right
-        if len(left_terms) == 2 and len(right_terms) == 0:
-            target = right_const - left_const
-            if is_ne:
-                v1, v2 = left_terms
-                for val1 in v1.bool_vars:
-                    val2 = target - val1
-                    if val2 in v2.bool_vars:
-                        self._clauses.append([-v1.bool_vars[val1], -v2.bool_vars[val2]])
-            else:
-                self._encode_sum_eq(left_terms, target)
-            return
-
-        # Handle simple case: single var + const on each side
-        if len(left_terms) == 1 and len(right_terms) == 1:
-            var1, var2 = left_terms[0], right_terms[0]
-            offset = right_const - left_const
-
-            if is_ne:
-                for v1 in var1.bool_vars:
-                    v2 = v1 - offset
-                    if v2 in var2.bool_vars:
-                        self._clauses.append([-var1.bool_vars[v1], -var2.bool_vars[v2]])
-            else:
-                for v1 in var1.bool_vars:
-                    v2 = v1 - offset
-                    if v2 in var2.bool_vars:
-                        self._clauses.append([-var1.bool_vars[v1], var2.bool_vars[v2]])
-                        self._clauses.append([var1.bool_vars[v1], -var2.bool_vars[v2]])
-                    else:
-                        self._clauses.append([-var1.bool_vars[v1]])
+    def _sum_var(self, variables: list["IntVar"]) -> "IntVar":
+        """Return a variable equal to sum(variables), chaining auxiliary partial sums."""
+        total = variables[0]
+        for var in variables[1:]:
+            partial = self._create_int_var(total.lb + var.lb, total.ub + var.ub)
+            for v1 in range(total.lb, total.ub + 1):
+                for v2 in range(var.lb, var.ub + 1):
+                    self._clauses.append([-total.bool_vars[v1], -var.bool_vars[v2], partial.bool_vars[v1 + v2]])
+            total = partial
+        return total
 
     # Sum constraints
 
